@@ -24,7 +24,7 @@ InitCur == [model |-> EmptyModel, memo |-> <<>>, other |-> EmptyModel,
             m0 |-> EmptyModel, m1 |-> EmptyModel, gen |-> 0, wd |-> <<>>, wmemo |-> <<>>, fmt |-> "",
             pj |-> [out |-> "none", anom |-> <<>>, post |-> EmptyModel]]
 
-EditActions == {"EditCard", "EditAddChild", "EditRemoveKid", "EditReplaceKid", "EditAbstract", "EditAttrVal", "EditRemoveCtc",
+EditActions == {"EditCard", "EditAddChild", "EditRemoveKid", "EditReplaceKid", "EditMove", "EditImport", "EditAbstract", "EditAttrVal", "EditRemoveCtc",
                 "EditCtcOp", "EditRename"}
 BuilderActions == {"NewModel", "AddRelation", "SetAbstract", "SetType", "SetFCard",
                    "AddAttribute", "AddConstraint", "ReplaceConstraint"} \cup EditActions
@@ -61,6 +61,10 @@ BuildExpected(cur, e) ==
     [] e.a = "EditReplaceKid" -> LET j == RelIdx(cur.model, e.args.o, e.args.ri)
                                      k == CHOOSE k \in DOMAIN cur.model.rels[j].kids : cur.model.rels[j].kids[k] = e.args.n
                                  IN  ReplaceKidF(cur.model, j, k)
+    [] e.a = "EditMove"      -> LET j == RelIdx(cur.model, e.args.o, e.args.ri)
+                                    k == CHOOSE k \in DOMAIN cur.model.rels[j].kids : cur.model.rels[j].kids[k] = e.args.n
+                                IN  MoveKidF(cur.model, j, k, RelIdx(cur.model, e.args.o2, e.args.ri2))
+    [] e.a = "EditImport"    -> ImportF(cur.model, e.args.ctcs)
     [] e.a = "EditAbstract"  -> ToggleAbstractF(cur.model, e.args.f)
     [] e.a = "EditAttrVal"   -> SetAttrValF(cur.model, e.args.f, e.args.k, e.args.val)
     [] e.a = "EditRemoveCtc" -> RemoveCtcF(cur.model, e.args.i)
@@ -72,6 +76,8 @@ EditArgsOK(cur, e) ==
   CASE e.a \in {"EditCard", "EditAddChild"} -> HasRel(m, e.args.o, e.args.ri)
     [] e.a \in {"EditRemoveKid", "EditReplaceKid"} ->
                                 HasRel(m, e.args.o, e.args.ri) /\ e.args.n \in Kids(m.rels[RelIdx(m, e.args.o, e.args.ri)])
+    [] e.a = "EditMove" -> /\ HasRel(m, e.args.o, e.args.ri) /\ HasRel(m, e.args.o2, e.args.ri2)
+                           /\ e.args.n \in Kids(m.rels[RelIdx(m, e.args.o, e.args.ri)])
     [] e.a \in {"EditAbstract", "EditRename"} -> e.args.f \in Names(m)
     [] e.a = "EditAttrVal" -> e.args.f \in Names(m) /\ e.args.k \in DOMAIN FeatOf(m, e.args.f).attrs
     [] e.a \in {"EditRemoveCtc", "EditCtcOp"} -> e.args.i \in DOMAIN m.ctcs
@@ -193,7 +199,12 @@ QueryClauses(cur, e) ==
      <<"C03.ctclist.strictcomplex", SameBag(R.ctclists.strictcomplex, CtcIdx(R, LAMBDA P : P.strictcomplex))>>,
      <<"C03.ctclist.excludes",      SameBag(R.ctclists.excludes,      CtcIdx(R, LAMBDA P : P.excludes))>>,
      <<"C03.ctclist.requires",      SameBag(R.ctclists.requires,      CtcIdx(R, LAMBDA P : P.requires))>>,
-     <<"C03.ctc.ast", \A i \in DOMAIN m.ctcs : R.ctc[i].ast = m.ctcs[i].ast>> >>)
+     <<"C03.ctc.ast", \A i \in DOMAIN m.ctcs : R.ctc[i].ast = m.ctcs[i].ast>>,
+     \* get_new_ctc_name (no listed property: clauses X.*): fresh, the prefix itself when that is free, pure
+     <<"X.newname.fresh",  \A i \in DOMAIN R.newnames : \A k \in DOMAIN m.ctcs : R.newnames[i].got # m.ctcs[k].name>>,
+     <<"X.newname.prefix", \A i \in DOMAIN R.newnames :
+                              (\A k \in DOMAIN m.ctcs : R.newnames[i].prefix # m.ctcs[k].name) => R.newnames[i].got = R.newnames[i].prefix>>,
+     <<"X.newname.pure",   \A i \in DOMAIN R.newnames : R.newnames[i].pure>> >>)
   \o Guarded(ok, Concat([i \in DOMAIN R.ctc |-> ClassifyClauses(R.ctc[i])]))
 
 ---------------------------------------------------------------------------
@@ -275,6 +286,12 @@ PairClauses(p, q, expected, caseonly) ==
      <<p \o ".hash", q.eq => q.h>>,
      <<p \o ".perm", caseonly \/ (expected => q.eq)>>,
      <<p \o ".edit", caseonly \/ (~expected => ~q.eq)>> >>
+\* The order relation sorted() relies on (not part of any listed property: clauses X.*): strict, compatible
+\* with equality, and total on features
+OrderClauses(kind, q) ==
+  << <<"X.order." \o kind \o ".asym",   ~(q.lt /\ q.gt)>>,
+     <<"X.order." \o kind \o ".eqcompat", q.eq => (~q.lt /\ ~q.gt)>>,
+     <<"X.order." \o kind \o ".total",  kind = "feature" => (q.lt \/ q.gt \/ q.eq)>> >>
 \* some bijection between the constraints of the two models pairs up constraints that the library
 \* itself reports equal (R.ctcs holds every pair i, j)
 CtcEqOf(R, i, j) == \E k \in DOMAIN R.ctcs : R.ctcs[k].i = i /\ R.ctcs[k].j = j /\ R.ctcs[k].eq
@@ -298,6 +315,9 @@ CompareClauses(cur, e) ==
        \o << <<"C20.model.consistent",
                 (SpecEq([a EXCEPT !.ctcs = <<>>], [b EXCEPT !.ctcs = <<>>]) /\ Len(a.ctcs) = Len(b.ctcs) /\ Len(a.ctcs) <= 4
                  /\ CtcMatching(R, Len(a.ctcs))) => R.model.eq>> >>
+       \o Concat([k \in DOMAIN R.feats |-> OrderClauses("feature", R.feats[k])])
+       \o Concat([k \in DOMAIN R.rels |-> OrderClauses("relation", R.rels[k])])
+       \o Concat([k \in DOMAIN R.ctcs |-> OrderClauses("constraint", R.ctcs[k])])
        \o Concat([k \in DOMAIN R.feats |-> PairClauses("C20.feature", R.feats[k],
                       a.feats[R.feats[k].i].name = b.feats[R.feats[k].j].name, FALSE)])
        \o Concat([k \in DOMAIN R.rels |-> PairClauses("C20.relation", R.rels[k],
